@@ -413,6 +413,36 @@ def check_mpf2multiword(r, repo, rule="R13.5"):
                 r.ob(rule, key, detail is None, detail or "", loc(REL, w))
     if n_words == 0:
         raise AnalysisError("mpf2multiword: no word construction found")
+    # early exits of the word loop: a `break` taken because a word converted to zero is a truncation (the chunk underflows the
+    # format) only when the chunk itself is non-zero; an all-zero chunk in the middle of a sparse significand must not end the loop
+    # while lower bits remain
+    n_brk = 0
+    for n_ in ast.walk(f):
+        if isinstance(n_, ast.If) and any(isinstance(b_, ast.Break) for b_ in n_.body):
+            t = n_.test
+            zero_word = isinstance(t, ast.Compare) and len(t.ops) == 1 and isinstance(t.ops[0], ast.Eq) and isinstance(t.left, ast.Name) \
+                and ((isinstance(t.comparators[0], ast.Call) and t.comparators[0].args and isinstance(t.comparators[0].args[0], ast.Constant) and t.comparators[0].args[0].value == 0)
+                     or (isinstance(t.comparators[0], ast.Constant) and t.comparators[0].value == 0))
+            if not zero_word:
+                continue
+            # is the compared name a word (result of mpf2float)?
+            defs = [st for st in ast.walk(f) if isinstance(st, ast.Assign) and any(isinstance(tt, ast.Name) and tt.id == t.left.id for tt in st.targets)]
+            if not any(isinstance(d_.value, ast.Call) and (call_name(d_.value) or "") == "mpf2float" for d_ in defs):
+                continue
+            n_brk += 1
+            # accepted when an enclosing / conjoined test establishes that the mantissa chunk is non-zero
+            guarded = False
+            anc = n_
+            while anc is not None and anc is not f:
+                anc = getattr(anc, "_parent", None)
+                if isinstance(anc, ast.If) and any(isinstance(x, ast.Compare) and isinstance(x.ops[0], (ast.NotEq, ast.Gt)) and isinstance(x.comparators[0], ast.Constant)
+                                                      and x.comparators[0].value == 0 for x in ast.walk(anc.test)):
+                    guarded = True
+            r.ob(rule, f"{REL}::mpf2multiword early exit on a zero word", guarded,
+                 f"`if {norm_src(t)}: break` ends the loop whenever a word is zero, also when its mantissa chunk is all zero bits in the middle of a sparse "
+                 "significand: the lower bits are then dropped although they are representable (float64(1 + 2**-52) in float32 words is [1.0])", loc(REL, n_))
+    if n_brk == 0:
+        raise AnalysisError("mpf2multiword: the truncation exit `if x1 == dtype(0): break` was not found")
     # multiword2mpf: the sum runs over every word exactly once
     g = repo.func(REL, "multiword2mpf")
     mw = g.args.args[1].arg
@@ -431,6 +461,26 @@ def check_mpf2multiword(r, repo, rule="R13.5"):
                     ok = True
                 elif len(c_.args) == 1 and it in (mw, f"reversed({mw})") and not c_.args[0].generators[0].ifs:
                     ok = True
+    # the words are added as multiprecision numbers: every use of a word is the argument of float2mpf (a native sum of the words
+    # rounds to the word format at every step - a multiword of a wider value collapses to one word)
+    word_vars = set()
+    for n_ in ast.walk(g):
+        if isinstance(n_, ast.comprehension) or isinstance(n_, ast.For):
+            it_src = norm_src(n_.iter)
+            if isinstance(n_.target, ast.Name) and (it_src in (mw, f"reversed({mw})", f"{mw}[:-1]", f"reversed({mw}[:-1])")):
+                word_vars.add(n_.target.id)
+    raw = []
+    for n_ in ast.walk(g):
+        is_word = (isinstance(n_, ast.Subscript) and dotted(n_.value) == mw and not isinstance(n_.slice, ast.Slice) and isinstance(n_.ctx, ast.Load)) \
+            or (isinstance(n_, ast.Name) and n_.id in word_vars and isinstance(n_.ctx, ast.Load))
+        if is_word:
+            par = getattr(n_, "_parent", None)
+            conv = isinstance(par, ast.Call) and (dotted(par.func) or "").split(".")[-1] == "float2mpf" and n_ in par.args
+            if not conv:
+                raw.append(n_)
+    r.ob(rule, f"{REL}::multiword2mpf converts every word to mpf before adding", not raw,
+         f"`{norm_src(raw[0]) if raw else ''}` is used as a native float (not as float2mpf(ctx, word)): the words are then added in the word format, which rounds "
+         "at every step, and a float carried in narrower words (float64 in float32 words) comes back rounded to one word", loc(REL, raw[0] if raw else g))
     r.ob(rule, f"{REL}::multiword2mpf sums every word once", ok,
          f"indices {idx} over `{norm_src(loops[0].iter) if loops else None}`: not (last word) + (every other word once)", loc(REL, g))
 
